@@ -558,7 +558,7 @@ impl Crate {
                     return Err(format!("expected exactly one `impl {} for {}` with `{}`, found {}", tr, ty, name, fs.len()));
                 }
                 let defined = self.impl_fns.get(&(ty.to_string(), tr.to_string())).cloned().unwrap_or_default();
-                if defined.len() != 1 {
+                if !tr.is_empty() && defined.len() != 1 {
                     return Err(format!("impl {} for {} defines {}", tr, ty, defined.join(", ")));
                 }
                 let got = fs[0].block.to_token_stream().to_string().replace(' ', "");
